@@ -12,10 +12,9 @@
 (* verdicts: the driver replays every vector into the real parser.                           *)
 EXTENDS Cli, CliShapes, Json
 CONSTANTS Mode, MaxLen, ShapeSel, Tier, MaxPerm
-VARIABLES sh, in, want, stk, rem, res, ph
-vars == <<sh, in, want, stk, rem, res, ph>>
+VARIABLES sh, in, want, stk, rem, res, ph, asg, arms
+vars == <<sh, in, want, stk, rem, res, ph, asg, arms>>
 
-B(s) == s     \* (documentation only)
 \* value domains of the round trip.  Tokens, not values: the expected value is ValOf(tv).
 T0 == <<48>>                                  \* 0
 TM1 == <<45,49>>                              \* -1
@@ -26,8 +25,8 @@ TE == <<>>                                    \* ""
 TX == <<120>>                                 \* x
 TOL == <<45,45,111,112,116,45,108,105,107,101>>   \* --opt-like
 TYZ == <<121,32,122>>                         \* "y z"
-IntToks == IF Tier = "quick" THEN {T0, TM1, TMAX} ELSE {T0, TM1, TMAX, T255, T7}
-StrToks == IF Tier = "quick" THEN {TE, TX, TOL} ELSE {TE, TX, TOL, TYZ}
+IntToks == IF Tier = "quick" THEN {TM1, T255} ELSE {T0, TM1, TMAX, T255}
+StrToks == IF Tier = "quick" THEN {TE, TOL} ELSE {TE, TOL, TYZ}
 RepMax == 2
 \* the value tokens field f may take in an assignment: those its type converts, and for a
 \* positional only tokens that do not start with '-' (whether those are values is a policy)
@@ -54,17 +53,22 @@ TokAsg(S) ==
 
 \* orders of one level: all permutations when there are at most MaxPerm groups, else the
 \* identity, the reversal and the rotations; aliases: all long, all short, alternating
-Perms(m) ==
+PermsOf(m) ==
     IF m = 0 THEN {<<>>}
     ELSE IF m <= MaxPerm THEN {p \in [1..m -> 1..m] : \A a, b \in 1..m : a # b => p[a] # p[b]}
     ELSE {[a \in 1..m |-> ((a + k - 1) % m) + 1] : k \in 0..(m - 1)} \cup {[a \in 1..m |-> m + 1 - a]}
-Aliases(m) ==
+PermTab == [m \in 0..12 |-> PermsOf(m)]      \* evaluated once
+Perms(m) == PermTab[m]
+Aliases(m, both) ==
     IF m = 0 THEN {<<>>}
+    ELSE IF ~both THEN {[a \in 1..m |-> "l"]}
     ELSE {[a \in 1..m |-> "l"], [a \in 1..m |-> "s"],
           [a \in 1..m |-> IF a % 2 = 0 THEN "l" ELSE "s"], [a \in 1..m |-> IF a % 2 = 0 THEN "s" ELSE "l"]}
 LevelOrders(S, tv) ==
-    LET m == Len(Slots(S, tv))
-    IN {o \in [perm : Perms(m), alias : Aliases(m)] : OrderValid(S, tv, o)}
+    LET sl == Slots(S, tv)
+        m == Len(sl)
+        both == \E a \in 1..m : S.fields[sl[a]].long # <<>> /\ S.fields[sl[a]].short # <<>>
+    IN {o \in [perm : Perms(m), alias : Aliases(m, both)] : OrderValid(S, tv, o)}
 RECURSIVE Orders(_, _)
 Orders(S, tv) ==
     LET inner == IF tv.sc = <<>> \/ SubOf(S).tags[tv.sc[1].tag].inner = <<>> THEN {<<>>}
@@ -73,34 +77,40 @@ Orders(S, tv) ==
 
 Lists(s) == UNION {[1..k -> {Alpha[s][j] : j \in 1..Len(Alpha[s])}] : k \in 0..MaxLen}
 
-Start(s, a, w) ==
-    /\ sh = s /\ in = a /\ want = w /\ ph = "run"
-    /\ stk = <<Frame0(Shapes[s], <<>>)>> /\ rem = a /\ res = Running
-\* lists mode builds the argument list token by token (phase "build": TLC's workers share
-\* the enumeration) and hands every prefix to the matcher (phase "run")
+\* lists mode builds the argument list token by token (phase "build"), render mode starts from
+\* a token assignment and picks an order (phase "pick"): TLC's workers share the enumeration;
+\* every list is then handed to the matcher (phase "run")
 Init ==
     \E s \in ShapeSel :
-        IF Mode = "lists"
-        THEN /\ sh = s /\ in = <<>> /\ want = <<>> /\ ph = "build"
-             /\ stk = <<Frame0(Shapes[s], <<>>)>> /\ rem = <<>> /\ res = Running
-        ELSE \E tv \in TokAsg(Shapes[s]) : \E o \in Orders(Shapes[s], tv) :
-                Start(s, Render(Shapes[s], tv, o), <<ValOf(Shapes[s], tv)>>)
+        /\ sh = s /\ in = <<>> /\ want = <<>> /\ rem = <<>> /\ res = Running
+        /\ stk = <<Frame0(Shapes[s], <<>>)>> /\ arms = {}
+        /\ IF Mode = "lists" THEN ph = "build" /\ asg = <<>>
+           ELSE ph = "pick" /\ \E tv \in TokAsg(Shapes[s]) : asg = <<tv>>
 
+Pick ==
+    /\ ph = "pick" /\ ph' = "run" /\ asg' = <<>>
+    /\ \E o \in Orders(Shapes[sh], asg[1]) :
+          /\ in' = Render(Shapes[sh], asg[1], o)
+          /\ rem' = in'
+    /\ want' = <<ValOf(Shapes[sh], asg[1])>>
+    /\ UNCHANGED <<sh, stk, res, arms>>
 Extend ==
     /\ ph = "build" /\ Len(in) < MaxLen
     /\ \E j \in 1..Len(Alpha[sh]) : in' = Append(in, Alpha[sh][j])
-    /\ UNCHANGED <<sh, want, stk, rem, res, ph>>
+    /\ UNCHANGED <<sh, want, stk, rem, res, ph, asg, arms>>
 Go ==
     /\ ph = "build" /\ ph' = "run" /\ rem' = in
-    /\ UNCHANGED <<sh, in, want, stk, res>>
-\* the matcher: one action, one consumed argument group / one returning arg_parse call per step
+    /\ UNCHANGED <<sh, in, want, stk, res, asg, arms>>
+\* the matcher: one step = one arm of the generated code (Cli!MStep names the arm it takes;
+\* `arms` remembers the arms of this run - printed with the vector, so that the check can count
+\* how many model runs and real runs went through every arm)
 Step ==
     /\ ph = "run" /\ res = Running
     /\ LET n == MStep(Shapes[sh], stk, rem)
-       IN stk' = n.stk /\ rem' = n.rem /\ res' = n.res
-    /\ UNCHANGED <<sh, in, want, ph>>
+       IN stk' = n.stk /\ rem' = n.rem /\ res' = n.res /\ arms' = arms \cup {n.arm}
+    /\ UNCHANGED <<sh, in, want, ph, asg>>
 Done == res # Running /\ UNCHANGED vars
-Next == Extend \/ Go \/ Step \/ Done
+Next == Extend \/ Go \/ Pick \/ Step \/ Done
 
 \* the machine never runs past its input: every step consumes arguments or returns a frame
 Progress == (ph = "run" /\ res = Running) => Len(rem) + Len(stk) >= 1
@@ -110,5 +120,8 @@ AtEnd ==
         trok == res \in adm
         rt == want = <<>> \/ adm = {OkOut(want[1])}
     IN PrintT(<<"V", ToJson([s |-> sh, a |-> in, adm |-> SetToSeq(adm), tr |-> res,
-                             trok |-> trok, rt |-> rt, w |-> want # <<>>])>>)
+                             trok |-> trok, rt |-> rt, w |-> want # <<>>, arms |-> SetToSeq(arms)])>>)
+\* the fast computation of the admissible set is the definition (checked in the small
+\* self-check configuration)
+FastIsFull == res = Running \/ Admissible(Shapes[sh], in) = AdmissibleFull(Shapes[sh], in)
 =============================================================================
